@@ -26,7 +26,7 @@ META = {
             "every lambda of the real heap, not proved for the compiler model. The old theorem with the hypothesis is kept; the equivalence clause (later evaluations return what a twin VM returns) is carried by "
             "T07.1's 'heap unchanged + quiescent registers' plus the twin-VM exploration, not by a closed "
             "observational-equivalence theorem for the GENERIC heap (for the concrete machine see ROUND 4). ROUND 4 (heap simulation): GcRegs is discharged for the real collector model (cgc_regs): failed_eval_resets_cgc, sp_zero_between_evaluations_cgc, consecutive_failures_quiescent_cgc are the instantiated corollaries on the concrete machine. The equivalence clause T07.4 IS now a theorem on the concrete machine, failed_eval_equivalent_later: the state after the error epilogue (registers reset, stack wiped, collected) is Sim-related (equal up to an injection on heap addresses on everything reachable from the globals) to the twin that kept the heap of the failing instruction with idle registers and did not collect (failed_twin_sim), prepare_eval of the same form on both keeps them related (prepare_sim), and the next evaluation - any number of instructions, with the periodic collections - ends the same way on both: HALT with an equal datum in acc, or the same failure in Sim-related states (related stacks, from which the stack trace is computed). Explicit hypotheses: ExtLaws/ExtGood (unmodelled builtins, eval compiler, VPUSH), CompLaws/CompGood (the compiler inside prepare_eval), GoodI of the state the failed evaluation started in, SizeBounded (heaps <= 2^62 cells) and StackDiscAlong (frame discipline of the current instruction) along the three runs. Stated for ONE later evaluation from the post-failure state; iterating over a history needs the epilogue of the twin to be absorbed on the right as well (not done). Output and stack-trace rendering are outside the machine model and stay with the twin-VM exploration. Machine.lean is hand-written; its tie to run.rs is the lock-step "
-            "correspondence (differential testing on reached states).",
+            "correspondence (differential testing on reached states). ROUND 5 (WF-stack connected to the heap simulation): the bytecode verifier is VALUE-TYPED (abstract cells any | val | argc n: PUSHACC and PUSHIMM of a value push val, CONS pops two typed cells, CALL/TCALL need argc n over n typed cells, MOV never loads through a Ptr, MOVIMM loads a value, HALT is the last cell; 0 rejects on every real code object and on the compiler model's output) and WF-stack (Lemmas/StackWF*.lean) is re-proved for it for all 16 opcodes: val-typed temporaries, argument blocks and the argument cells of every frame hold values (IsValue = plainGlob, the notion of GoodI), acc holds a value, a frame has at least argNeed argument cells (ENTER compares argc with the formals of the code it runs). stackDisc_of_wfs (Lemmas/StackDiscOfWFS.lean) derives ALL SIX clauses of StackDisc from WFS (concreteLawsV ext ecl) s K; vmOk_reaches shows VmOk = GoodI /\ (WFS \/ halted) is an invariant of the REAL machine (run_one over concreteOps, run_gc = cgc): the guards of the machine the generic WF-stack theorem runs on (vops: guarded callee, value-guarded global/environment reads and VPUSH) are invisible on GoodI states (step_vops). The *_wf theorems restate the property WITHOUT StackDiscAlong: hypotheses = ExtLaws, ExtGood, ExtCodeLawsV (unmodelled builtins / eval compiler / VPUSH keep the value-typed code invariant CInvG IsValue), VmOk of the INITIAL state, SizeBounded, and CalleeOkAlong: at every reachable CALL/TCALL/ENTER site a closure / bare-lambda callee designates PROCEDURE code, not an entry lambda (oracle callee-ok of the C04 bytecode-verifier stream). CalleeOkAlong is NOT derived: it is a reachability fact (closures are built by CLOSURE from compile_lambda output; no value refers to an entry lambda) that needs two more heap-invariant clauses preserved by the unmodelled builtins. Non-vacuity: Demo.sHalt_vmOk. The safe-side-conditions stream also evaluates the value-typed frame of the current instruction on every real state (Driver/SimGood.typedCheck).",
     "technique": "Lean 4 proof (error epilogue resets to a quiescent state for every program; induction over histories) + lock-step instruction replay + twin-VM differential oracle",
 }
 MODULE = "Marwood.Proofs.C07"
@@ -60,6 +60,23 @@ THEOREMS = [
     "Marwood.Lemmas.Good.traceFrames_rel",
     "Marwood.Proofs.C07.demo_failed_eval",
     "Marwood.Lemmas.Good.safe_of_good",
+    "Marwood.Proofs.C07.failed_eval_equivalent_later_wf",
+    "Marwood.Lemmas.Good.Demo.sHalt1_vmOk",
+    "Marwood.Lemmas.Good.Demo.sHalt_calleeOkAlong1",
+    "Marwood.Lemmas.Good.stackDisc_of_wfs",
+    "Marwood.Lemmas.Good.step_vops",
+    "Marwood.Lemmas.Good.vmOk_step",
+    "Marwood.Lemmas.Good.vmOk_gc",
+    "Marwood.Lemmas.Good.vmOk_reaches",
+    "Marwood.Lemmas.Good.wfs_reaches",
+    "Marwood.Lemmas.Good.stackDiscAlong_of_wfs",
+    "Marwood.Lemmas.Good.safe_of_vmOk",
+    "Marwood.Vm.Concrete.concreteLawsV",
+    "Marwood.Vm.Concrete.cgc_gcLawsV",
+    "Marwood.Vm.step_wr",
+    "Marwood.Lemmas.Good.Demo.sHalt_vmOk",
+    "Marwood.Lemmas.Good.Demo.sHalt_calleeOkAlong",
+    "Marwood.Proofs.C13.failingExt_codeLawsV",
 ]
 
 
